@@ -86,7 +86,7 @@ func relaxedObj(g, d *e1.ObjDump) (string, string) {
 	if d.StrsErr == "" && g.StrsErr == "" && !reflect.DeepEqual(g.Strs, d.Strs) {
 		return "strings-differ", "ReadStrings differs from the intact file"
 	}
-	if d.CompErr == "" && g.CompErr == "" && !reflect.DeepEqual(g.Comp, d.Comp) {
+	if d.CompErr == "" && g.CompErr == "" && !e1.SameCompound(g.Comp, d.Comp) {
 		return "compound-differs", "ReadCompound differs from the intact file"
 	}
 	return "", ""
